@@ -598,21 +598,36 @@ def _odd(cx: Ctx, env, ty, depth):
     kind = cx.pick(["T", "L"])
     items = [gen(cx, env, ty, depth - 1) for _ in range(n)]
     lit = "(" + ", ".join(items) + ")" if kind == "T" else "[" + ", ".join(items) + "]"
+    # the literal may be written in place, or reach the selector only by substitution (argument of a called lambda, First() of a
+    # sequence of literals): `via(literal, suffix)` renders either
+    def via(target, suffix, tty):
+        k = cx.int_(0, 9)
+        if k <= 5 or not cx.cfg.called_lambdas:
+            return f"{target}{suffix(env)}"
+        v = cx.fresh(env)
+        e2 = bind(env, v, tty)
+        if k <= 8:
+            return f"(lambda {v}: {v}{suffix(e2)})({target})"
+        src, st_ = _source(cx, env)
+        w = cx.fresh(env)
+        return f"First(Select({src}, lambda {w}: {target})){suffix(env)}" if w not in target else f"{target}{suffix(env)}"
+
+    tty = (kind, tuple(ty for _ in range(n)))
     if c == 0:  # variable index (all elements have type ty)
-        idx = gen(cx, env, I, 0)
-        return f"{lit}[{idx} % {n}]" if cx.chance(5) else f"{lit}[{idx}]"
+        return via(lit, lambda e_: (f"[{gen(cx, e_, I, 0)} % {n}]" if cx.chance(5) else f"[{gen(cx, e_, I, 0)}]"), tty)
     if c == 1:  # negative index, in range or beyond the start
-        return f"{lit}[-{cx.int_(1, n + 2)}]"
+        return via(lit, lambda e_: f"[-{cx.int_(1, n + 2)}]", tty)
     if c == 2:
-        return f"{lit}[{cx.int_(0, 1)}:{cx.int_(1, n)}][0]"
+        return via(lit, lambda e_: f"[{cx.int_(0, 1)}:{cx.int_(1, n)}][0]", tty)
     if c == 3:  # planted out of range constant index
         return f"{lit}[{n + cx.int_(0, 2)}]"
     if c == 6:  # a constant that is not an int index: bool works in python, the others make python raise TypeError
         return f"{lit}[{cx.pick(['True', 'False', 'True', repr('f_a'), '0.5', 'None', repr('0')])}]"
     d = "{" + ", ".join(f"'f_{chr(97 + i)}': {it}" for i, it in enumerate(items)) + "}"
+    dty = ("R", tuple((f"f_{chr(97 + i)}", ty) for i in range(n)))
     if c == 4:  # absent key
-        return f"{d}['f_z']" if cx.chance(5) else f"{d}.f_z"
-    return f"{d}[{cx.pick(repr('f_a')) if False else repr('f_' + chr(97 + cx.int_(0, n - 1)))}]" if cx.chance(5) else f"{d}[{gen(cx, env, I, 0)}]"
+        return via(d, lambda e_: ("['f_z']" if cx.chance(5) else ".f_z"), dty)
+    return f"{d}[{repr('f_' + chr(97 + cx.int_(0, n - 1)))}]" if cx.chance(5) else via(d, lambda e_: f"[{gen(cx, e_, I, 0)}]", dty)
 
 
 # ------------------------------------------------------------------------------------------------
